@@ -318,6 +318,13 @@ def run(ctx, name, kind, **kw):
         wr = {
             "unknown_curve_oid": der_ref.spki((1, 3, 132, 0, 254), good),
             "wrong_alg_oid": der_ref.enc_seq(der_ref.enc_seq(der_ref.enc_oid((1, 2, 840, 113549, 1, 1, 1)), der_ref.enc_oid(tuple(c.oid))), der_ref.enc_bitstring(good)),
+            # algorithm identifiers that restrict the key to other uses (RFC 5480: id-ecDH, id-ecMQV) or are neighbours of id-ecPublicKey
+            "alg_oid_ecdh": der_ref.enc_seq(der_ref.enc_seq(der_ref.enc_oid(der_ref.OID_ECDH), der_ref.enc_oid(tuple(c.oid))), der_ref.enc_bitstring(good)),
+            "alg_oid_ecmqv": der_ref.enc_seq(der_ref.enc_seq(der_ref.enc_oid(der_ref.OID_ECMQV), der_ref.enc_oid(tuple(c.oid))), der_ref.enc_bitstring(good)),
+            "alg_oid_neighbour_2_2": der_ref.enc_seq(der_ref.enc_seq(der_ref.enc_oid((1, 2, 840, 10045, 2, 2)), der_ref.enc_oid(tuple(c.oid))), der_ref.enc_bitstring(good)),
+            "alg_oid_prefix": der_ref.enc_seq(der_ref.enc_seq(der_ref.enc_oid((1, 2, 840, 10045, 2)), der_ref.enc_oid(tuple(c.oid))), der_ref.enc_bitstring(good)),
+            "alg_oid_longer": der_ref.enc_seq(der_ref.enc_seq(der_ref.enc_oid((1, 2, 840, 10045, 2, 1, 1)), der_ref.enc_oid(tuple(c.oid))), der_ref.enc_bitstring(good)),
+            "alg_oid_is_curve_oid": der_ref.enc_seq(der_ref.enc_seq(der_ref.enc_oid(tuple(c.oid)), der_ref.enc_oid(tuple(c.oid))), der_ref.enc_bitstring(good)),
             "unused_bits_1": der_ref.enc_seq(der_ref.enc_seq(der_ref.enc_oid(der_ref.OID_EC_PUBLIC_KEY), der_ref.enc_oid(tuple(c.oid))), der_ref.enc_tlv(3, b"\x01" + good[:-1] + bytes([good[-1] & 0xFE]))),
             "trailing": spki + b"\x00", "truncated": spki[:-1], "octet_not_bitstring": der_ref.enc_seq(der_ref.enc_seq(der_ref.enc_oid(der_ref.OID_EC_PUBLIC_KEY), der_ref.enc_oid(tuple(c.oid))), der_ref.enc_octet(good)),
             "explicit_params": der_ref.enc_seq(der_ref.enc_seq(der_ref.enc_oid(der_ref.OID_EC_PUBLIC_KEY), der_ref.enc_seq(der_ref.enc_int(1))), der_ref.enc_bitstring(good)),
